@@ -1411,6 +1411,12 @@ class Interp:
             r.cell(i).value = v
         return r
 
+    def e_CXXStdInitializerListExpr(self, n):
+        v = self.eval(n['c'][0])
+        if isinstance(v, Cell):
+            v = v.value
+        return v  # the backing array (Region)
+
     def e_CompoundLiteralExpr(self, n):
         return self.eval(n['c'][0])
 
